@@ -3,6 +3,7 @@ Property C15, phase 2: invariants of the loops of `construct_candidates` and of 
 loops of `pseudo_toroidal_cover` — every candidate table is a valid table of the group.
 -/
 import DSymVerif.Proofs.Delaney3dTables
+import DSymVerif.Proofs.FundGroupLetters
 
 namespace DSymVerif.D3
 open DSymVerif DSymVerif.Cosets DSymVerif.SpecC11 DSymVerif.SpecC13 DSymVerif.CosetP DSymVerif.StabP
@@ -17,6 +18,20 @@ structure GroupOK (fg : FG.FundGroup) : Prop where
   /-- the node budget of the model of `coset_tables` exhausts the search tree -/
   fuel : (BT.dfs (btProblem fg.genToEdge.length (expandedRelatorSet fg.relators) Tables.candidateIndexBound)
       (LowIndexP.height Tables.candidateIndexBound) (.ok (Table.new fg.genToEdge.length))).length ≤ nodeFuel
+
+
+/-- the only assumption left for a presentation returned by `fundamental_group`: the node budget
+    of the model of `coset_tables` (the Rust iterator has none) exhausts the search tree — the
+    hypothesis of C12's theorems -/
+def FuelOK (fg : FG.FundGroup) : Prop :=
+  (BT.dfs (btProblem fg.genToEdge.length (expandedRelatorSet fg.relators) Tables.candidateIndexBound)
+      (LowIndexP.height Tables.candidateIndexBound) (.ok (Table.new fg.genToEdge.length))).length ≤ nodeFuel
+
+/-- relators and cone words of a value returned by the model of `fundamental_group` are words
+    over its generators (C09 `fundamentalGroup_letters`) -/
+theorem groupOK_of_fundamentalGroup {ds : DS.DSymData} {fg : FG.FundGroup}
+    (h : FG.fundamentalGroup ds = .ok fg) (hf : FuelOK fg) : GroupOK fg :=
+  ⟨(FGP.fundamentalGroup_letters ds fg h).1, (FGP.fundamentalGroup_letters ds fg h).2.1, hf⟩
 
 /-- every table of every list satisfies `P` -/
 def AllCands (P : Tab → Prop) (c : Candidates) : Prop := ∀ e ∈ c, ∀ t ∈ e.2, P t
@@ -83,7 +98,7 @@ theorem isCoreOf_valid {n : Nat} {rels : List (List Int)} {k : Nat} {c : Tab}
     (hlet : ∀ w ∈ rels, ∀ x ∈ w, x ∈ allGensOf n) (h : IsCoreOf n rels k c) :
     validTable c n rels [] = true := by
   obtain ⟨t, hv, _, hc⟩ := h
-  obtain ⟨c', hc', hv', _⟩ := coreTab_valid hlet hv
+  obtain ⟨c', hc', hv', _, _⟩ := coreTab_valid hlet hv
   rw [hc] at hc'
   cases hc'
   exact hv'
